@@ -303,3 +303,39 @@ func VH_C06_MATH(lk, rk int) {
 	}
 	vCover("evaluated")
 }
+
+// Cyclic field definitions: a field name reachable from its own definition through every
+// expression constructor must be refused (or evaluated), never recursed into without end.
+var vC06CycleCtx = []string{
+	"upper(@)", "@ + 'x'", "'x' + @", "!(@ = 'a')", "key in (upper(@))", "key in ('a', @)", "key in ('a', @ + 'x')",
+	"key between upper(@) and 'z'", "key between 'a' and @ + 'z'", "key between @ and 'z'", "json(@)['x']", "split(@, ',')[0]",
+	"strlen(lower(@))", "(@ = 'a') & key = 'b'", "join(',', key, @)", "substr(@, 0, 1)", "list(@, 'x')[0]", "upper(key) in (lower(upper(@)), 'k')",
+	"(key = 'a' | !(key in (lower(@))))",
+}
+
+func VN_C06_CYCLE(tier int) int { return len(vC06CycleCtx) }
+
+// VH_C06_CYCLE(ci, kind): kind 0 self reference, 1/2 two fields referring to each other, 3 self
+// reference used in WHERE, 4 cycle of three, 5 self reference under ORDER BY, 6 under GROUP BY.
+func VH_C06_CYCLE(ci, kind int) {
+	c := vC06CycleCtx[ci]
+	var q string
+	switch kind {
+	case 0:
+		q = "select key, " + vFill(c, "f") + " as f where key >= ''"
+	case 1:
+		q = "select " + vFill(c, "b") + " as a, upper(a) as b where key >= ''"
+	case 2:
+		q = "select upper(b) as a, " + vFill(c, "a") + " as b where key >= ''"
+	case 3:
+		q = "select key, " + vFill(c, "f") + " as f where f != '' & key >= ''"
+	case 4:
+		q = "select " + vFill(c, "c") + " as a, lower(a) as b, b + 'x' as c where key >= ''"
+	case 5:
+		q = "select key, " + vFill(c, "f") + " as f where key >= '' order by f"
+	default:
+		q = "select " + vFill(c, "f") + " as f, count(1) where key >= '' group by f"
+	}
+	PlanBatchSize = 2
+	vRunToExhaustion(q, vSmallStore(), 5)
+}
